@@ -84,8 +84,20 @@ func (c *vC15Conn) Read(p []byte) (int, error) {
 		c.idle++
 		c.mu.Unlock()
 		c.poke()
+		// a closed connection wins over queued frames: once Conn.Close has returned the reader ends
+		// deterministically, whatever the peer sends afterwards
+		select {
+		case <-c.readBlock:
+			return 0, io.EOF
+		default:
+		}
 		select {
 		case b := <-c.incoming:
+			select {
+			case <-c.readBlock:
+				return 0, io.EOF
+			default:
+			}
 			c.rest = b
 		case <-c.readBlock:
 			return 0, io.EOF
